@@ -17,6 +17,7 @@ struct ModelRes {
     Table T;
     std::vector<int> mustThrow;       // non-empty: the call must raise one of these error codes
     std::vector<int> mayThrow;        // undocumented corners: the call may raise these, or return
+    int proneErrors = 0;              // error points a library shortcut may absorb (known finding; strict mode asserts them)
 };
 
 struct Interp {
@@ -29,6 +30,7 @@ struct Interp {
     std::vector<Table> ioTables;       // model of what was written
     std::vector<int> ioForest;
     long nodeDeaths = 0;
+    bool strictErrors = false;         // step 'strict': assert even the error points a shortcut may absorb
     std::vector<std::map<long, uint64_t>> sigs;   // per forest: handle -> content signature (reuse detection)
 
     Interp(const Program& p, const Checks& c) : P(p), C(c) {}
@@ -67,7 +69,7 @@ struct Interp {
 // reference semantics (semantics.cc)
 ModelRes modelUnary(const World& W, const std::string& op, int fa, const Table& A, int fc);
 ModelRes modelBinary(const World& W, const std::string& op, int fa, const Table& A, int fb,
-                     const Table& B, int fc, bool sameEdge);
+                     const Table& B, int fc, bool strict);
 Val convertVal(const Val& v, const FSpec& from, const FSpec& to);   // COPY conversion
 MEDDLY::binary_factory* binaryFactory(const std::string& op);
 MEDDLY::unary_factory* unaryFactory(const std::string& op);
